@@ -61,6 +61,10 @@ pub struct SimConfig {
     pub hold_sites: Vec<String>,
     #[serde(default)]
     pub hold_steps: u64,
+    /// the hold also lasts while every other thread is asleep (virtual time then jumps to their
+    /// timers); without it the victim runs as soon as nobody else is runnable
+    #[serde(default)]
+    pub hold_through_idle: bool,
 }
 
 impl Default for SimConfig {
@@ -79,6 +83,7 @@ impl Default for SimConfig {
             frozen_wall: false,
             hold_sites: Vec::new(),
             hold_steps: 0,
+            hold_through_idle: false,
         }
     }
 }
@@ -618,6 +623,18 @@ impl Sim {
             g.watched.push((site, ev));
         }
         let mut enabled: Vec<(usize, bool)> = Vec::with_capacity(g.threads.len());
+        // targeted hold (Strategy::Starve with hold_sites): the victim is not schedulable while
+        // it is parked at a listed site and the others have not yet taken `hold_steps` steps -
+        // unless nothing else can ever run
+        g.threads[me].parked_at = g.steps + 1;
+        let held_victim: Option<usize> = match g.cfg.strategy {
+            Strategy::Starve(v) if !g.cfg.hold_sites.is_empty() => {
+                let victim = (v as usize) % g.threads.len();
+                let at_site = g.cfg.hold_sites.iter().any(|s| s == g.threads[victim].last_site);
+                (at_site && (g.steps + 1).saturating_sub(g.threads[victim].parked_at) < g.cfg.hold_steps).then_some(victim)
+            }
+            _ => None,
+        };
         loop {
             enabled.clear();
             let now = g.now;
@@ -638,6 +655,12 @@ impl Sim {
                             }
                         }
                     }
+                }
+            }
+            if let Some(v) = held_victim {
+                let others = enabled.iter().any(|(i, _)| *i != v);
+                if others || (g.cfg.hold_through_idle && min_deadline.is_some()) {
+                    enabled.retain(|(i, _)| *i != v);
                 }
             }
             if !enabled.is_empty() {
@@ -704,21 +727,9 @@ impl Sim {
                     0
                 }
             }
-            Strategy::Starve(v) if !g.cfg.hold_sites.is_empty() => {
-                // targeted hold: the victim waits at the listed sites until the other threads
-                // have taken `hold_steps` steps, and is an ordinary thread everywhere else
-                let victim = (v as usize) % g.threads.len();
-                let held = g.cfg.hold_sites.iter().any(|s| s == g.threads[victim].last_site)
-                    && g.steps.saturating_sub(g.threads[victim].parked_at) < g.cfg.hold_steps;
-                let others: Vec<usize> = (0..enabled.len())
-                    .filter(|k| enabled[*k].0 != victim)
-                    .collect();
-                if held && !others.is_empty() {
-                    others[(draw % others.len() as u32) as usize]
-                } else {
-                    (draw % n) as usize
-                }
-            }
+            // targeted hold: a held victim was already taken out of `enabled` above; everywhere
+            // else it is an ordinary thread
+            Strategy::Starve(_) if !g.cfg.hold_sites.is_empty() => (draw % n) as usize,
             Strategy::Starve(v) => {
                 let victim = (v as usize) % g.threads.len();
                 let others: Vec<usize> = (0..enabled.len())
